@@ -40,6 +40,24 @@ fn arbitrary_words(data: &[u8]) -> impl Iterator<Item = u64> + '_ {
     })
 }
 
+/// One target for a whole property: the first byte selects one of the property's generated
+/// sub-checks (monotone map), the remaining bytes are its choice words.
+pub fn run_any(prop_id: &str, data: &[u8]) {
+    INIT.call_once(install_panic_hook);
+    static CACHE: std::sync::OnceLock<(Vec<crate::engine::SubCheck>, Vec<String>)> = std::sync::OnceLock::new();
+    let (scs, known) = CACHE.get_or_init(|| {
+        let props = crate::all_properties();
+        let prop = props.iter().find(|p| p.id == prop_id).expect("unknown property");
+        let scs: Vec<_> = prop.subchecks.iter().filter(|s| matches!(s.kind, Kind::Generated { .. })).copied().collect();
+        (scs, crate::known_signatures(prop_id))
+    });
+    if data.is_empty() || scs.is_empty() {
+        return;
+    }
+    let k = (data[0] as usize * scs.len()) >> 8;
+    run_one(prop_id, &scs[k], known, &data[1..]);
+}
+
 pub fn run(prop_id: &str, subcheck: &str, data: &[u8]) {
     INIT.call_once(install_panic_hook);
     // the sub-check and the known-findings list are looked up once per process
@@ -50,6 +68,11 @@ pub fn run(prop_id: &str, subcheck: &str, data: &[u8]) {
         let sc = *prop.subchecks.iter().find(|s| s.name == subcheck).expect("unknown sub-check");
         (sc, crate::known_signatures(prop_id))
     });
+    run_one(prop_id, sc, known, data);
+}
+
+fn run_one(prop_id: &str, sc: &crate::engine::SubCheck, known: &[String], data: &[u8]) {
+    let subcheck = sc.name;
     let cw = bytes_to_case(sc.kind, data);
     let r = eval_case(sc, &cw, known, false, false);
     if let Verdict::Violation(msg) = r.verdict {
